@@ -324,7 +324,10 @@ func (f *chainFam) Apply(st M) M {
 		a := f.c.Acct([]string{"a", "b", "c"}[f.rng.Intn(3)])
 		t := f.files[f.rng.Intn(len(f.files))]
 		sizes := []int64{0, -1, 1, 3, 1 << 62, math.MinInt64, math.MaxInt64, math.MaxInt64, math.MaxInt64 - 7, math.MaxInt64/2 + 1, math.MaxInt64 / 3}
-		msg := &stypes.MsgPostFile{Creator: a.S(), Merkle: t.root, FileSize: sizes[f.rng.Intn(len(sizes))], MaxProofs: int64([]int{1, 1, 1, 2, 3, 0, -1}[f.rng.Intn(7)]), Note: "{}"}
+		msg := &stypes.MsgPostFile{Creator: a.S(), Merkle: t.root, FileSize: sizes[f.rng.Intn(len(sizes))], MaxProofs: []int64{1, 1, 1, 2, 3, 0, -1, 1 << 45, 1 << 55}[f.rng.Intn(9)], Note: "{}"}
+		if msg.MaxProofs > 1<<40 { // huge replication of a tiny file (the product still fits the whale plans)
+			msg.FileSize = []int64{1, 3}[f.rng.Intn(2)]
+		}
 		switch f.rng.Intn(6) {
 		case 0:
 			msg.Expires = f.c.H + int64([]int{14400, 3 * 14400, 1, -5}[f.rng.Intn(4)])
